@@ -47,6 +47,13 @@ pub enum Fault {
     /// put only: the first `permille`/1000 of the payload is stored under the key, then the
     /// call returns an error (for other operations this behaves like `Fail`)
     PartialThenFail(u16),
+    /// get only: the call returns Ok with one byte flipped (`^ 0xFF`, as the in-tree
+    /// SimulatedObjectStore corrupts) at offset `permille`/1000 of the object; the stored object
+    /// stays intact. Other operations are not affected.
+    CorruptGet(u16),
+    /// get only: the call returns Ok with only the first `permille`/1000 of the object; the
+    /// stored object stays intact. Other operations are not affected.
+    TruncateGet(u16),
 }
 
 #[derive(Clone, Debug)]
@@ -79,7 +86,9 @@ impl CallRecord {
                 Some(d) => format!(" ({}B)", d.len()),
                 None => String::new(),
             },
-            if self.ok {
+            if self.ok && self.injected && self.op == OpKind::Get {
+                " (returned corrupted/truncated bytes: injected)"
+            } else if self.ok {
                 ""
             } else if self.injected {
                 " FAILED (injected)"
@@ -119,6 +128,11 @@ impl Future for YieldOnce {
             Poll::Pending
         }
     }
+}
+
+/// Does this scripted fault make a non-get operation fail?
+fn fails(f: Option<Fault>) -> bool {
+    matches!(f, Some(Fault::Fail) | Some(Fault::PartialThenFail(_)))
 }
 
 fn injected(op: &str, idx: usize) -> IoError {
@@ -220,7 +234,7 @@ impl TraceObjectStore {
             task,
         });
         let f = g.faults.get(&idx).cloned();
-        g.calls[idx].injected = f.is_some();
+        g.calls[idx].injected = (op == OpKind::Get && f.is_some()) || fails(f);
         (idx, f)
     }
 
@@ -251,6 +265,13 @@ impl ObjectStore for TraceObjectStore {
             let (idx, fault) = self.begin(OpKind::Put, key, None, Some(data));
             let r = match fault {
                 Some(Fault::Fail) => Err(injected("put", idx)),
+                Some(Fault::CorruptGet(_)) | Some(Fault::TruncateGet(_)) => {
+                    let mut g = self.lock();
+                    let payload = g.calls[idx].data.clone().expect("put payload recorded");
+                    g.objects.insert(key.to_string(), payload);
+                    g.created.insert(key.to_string(), idx as u64);
+                    Ok(())
+                }
                 Some(Fault::PartialThenFail(pm)) => {
                     let n = (data.len() * pm.min(1000) as usize) / 1000;
                     let mut g = self.lock();
@@ -278,13 +299,23 @@ impl ObjectStore for TraceObjectStore {
         Box::pin(async move {
             self.gate().await;
             let (idx, fault) = self.begin(OpKind::Get, key, None, None);
-            let r = if fault.is_some() {
-                Err(injected("get", idx))
-            } else {
-                match self.lock().objects.get(key) {
-                    Some(d) => Ok(d.as_ref().clone()),
-                    None => Err(IoError::new(ErrorKind::NotFound, format!("Key not found: {}", key))),
+            let stored = self.lock().objects.get(key).cloned();
+            let r = match (fault, stored) {
+                (Some(Fault::CorruptGet(pm)), Some(d)) => {
+                    let mut v = d.as_ref().clone();
+                    if !v.is_empty() {
+                        let at = ((v.len() * pm.min(999) as usize) / 1000).min(v.len() - 1);
+                        v[at] ^= 0xFF;
+                    }
+                    Ok(v)
                 }
+                (Some(Fault::TruncateGet(pm)), Some(d)) => {
+                    let n = (d.len() * pm.min(999) as usize) / 1000;
+                    Ok(d[..n].to_vec())
+                }
+                (Some(Fault::Fail), _) | (Some(Fault::PartialThenFail(_)), _) => Err(injected("get", idx)),
+                (_, Some(d)) => Ok(d.as_ref().clone()),
+                (_, None) => Err(IoError::new(ErrorKind::NotFound, format!("Key not found: {}", key))),
             };
             self.end(idx, r.is_ok());
             r
@@ -298,7 +329,7 @@ impl ObjectStore for TraceObjectStore {
         Box::pin(async move {
             self.gate().await;
             let (idx, fault) = self.begin(OpKind::Exists, key, None, None);
-            let r = if fault.is_some() {
+            let r = if fails(fault) {
                 Err(injected("exists", idx))
             } else {
                 Ok(self.lock().objects.contains_key(key))
@@ -315,7 +346,7 @@ impl ObjectStore for TraceObjectStore {
         Box::pin(async move {
             self.gate().await;
             let (idx, fault) = self.begin(OpKind::Delete, key, None, None);
-            let r = if fault.is_some() {
+            let r = if fails(fault) {
                 Err(injected("delete", idx))
             } else {
                 let mut g = self.lock();
@@ -336,7 +367,7 @@ impl ObjectStore for TraceObjectStore {
         Box::pin(async move {
             self.gate().await;
             let (idx, fault) = self.begin(OpKind::List, prefix, None, None);
-            let r = if fault.is_some() {
+            let r = if fails(fault) {
                 Err(injected("list", idx))
             } else {
                 let g = self.lock();
@@ -369,7 +400,7 @@ impl ObjectStore for TraceObjectStore {
         Box::pin(async move {
             self.gate().await;
             let (idx, fault) = self.begin(OpKind::Rename, from, Some(to), None);
-            let r = if fault.is_some() {
+            let r = if fails(fault) {
                 Err(injected("rename", idx))
             } else {
                 let mut g = self.lock();
@@ -398,7 +429,7 @@ impl ObjectStore for TraceObjectStore {
         Box::pin(async move {
             self.gate().await;
             let (idx, fault) = self.begin(OpKind::Head, key, None, None);
-            let r = if fault.is_some() {
+            let r = if fails(fault) {
                 Err(injected("head", idx))
             } else {
                 let g = self.lock();
